@@ -11,12 +11,25 @@ from common import ImplError, cmp_result, frac, impl_call
 
 ID = "C07"
 LEVEL = "proof"
-RULE = ("kinds: chunks (n, n_chunks) exhaustive over a grid; pipeline (n<=7, n_chunks, chunk order with "
+RULE = ("kinds: chunks (n, n_chunks) exhaustive over a grid; srcpipeline / script: the same pipeline cases, and random scripts of "
+        "ChunkedDistanceMatrix calls (incl. invalid ones), run on the TRANSLATED source (Generated/Src*.v extracted) and compared with the real class; pipeline (n<=7, n_chunks, chunk order with "
         "repeats / omissions, distinct-valued metric table incl. 0) through the real "
         "calculate_pairwise_distance_matrix_on_predictions + save + load + concat + to_dense; mse (float vectors, "
         "sigmoid on/off).  Non-trivial: n>=2; distinct by canonical case description.")
 THEOREMS = {
+    "C07_model_is_source_arithmetic": "n_lower and chunk_bounds are the source's arithmetic (round-1 integer-kernel translation py2coq of get_number_of_lower_triangular_indices and the arithmetic prefix of get_lower_triangular_indices_chunk)",
     "C07_model_is_source_enumeration": "lower_tri n (as integer pairs) is what the whole generator lower_triangular_indices, re-translated from /repo on this run, yields for n >= 0; for n <= 0 it yields nothing",
+    "C07_model_is_source_get_lower_triangular_indices_chunk": "get_lower_triangular_indices_chunk translated as ONE whole function (assert, checked // and %, the generator's list, consume / list(islice) as skipn / firstn refusing a negative count) = Chunks.chunk_checked for all integer arguments; for 0 <= chunk_index < n_chunks that is Chunks.chunk; a dimension <= 0 gives the empty chunk",
+    "C07_model_is_source_init": "ChunkedDistanceMatrix.__init__ translated: chunk_size argument unless None or 0, else the length of the (n_chunks, chunk_index) chunk; negative refused by np.zeros; the new object is well formed and represents the empty matrix",
+    "C07_model_is_source_add_value": "add_value + _expand_storage translated: on a well-formed stored object with room it is the model's add_value through the representation map (guards >= and <, entry appended, the already-calculated tests cannot fire); on an object built for an empty chunk (no room) a value passing the guards raises IndexError",
+    "C07_model_is_source_is_complete": "is_complete translated = model's count test",
+    "C07_model_is_source_combine": "combine translated (size test, prefix copy into a new object, duplicate suppression by (row, col) membership as written, add_value per new entry) = model's combine, for well-formed objects (a size<2 matrix is not combined with one holding a value)",
+    "C07_model_is_source_concat": "concat translated (single element returned as is, empty list refused, size test + combine per further matrix) = model's dm_concat",
+    "C07_model_is_source_to_dense": "to_dense translated (refusal of an incomplete matrix, zero matrix, both mirrored cells written per entry) = model's to_dense, for objects whose stored index pairs are inside the matrix",
+    "C07_model_is_source_calculate_pairwise": "calculate_pairwise_distance_matrix_on_predictions translated, for ANY get_theta / predict_viability / metric = model's compute_chunk with d i j = metric(pred i, pred j) for 0 <= chunk_index < n_chunks; outside it fails as the chunk function does",
+    "C07_model_is_source_save_load": "save translated (h5py calls as primitives over the record of the file's four datasets) writes the used prefixes of the three arrays and [size]; load translated, applied to what save wrote, gives a well-formed object representing the same matrix = the model's dm_load (dm_save m)",
+    "C07_model_is_source_pipeline": "the translated calculate_pairwise, save, load per listed chunk, then concat, to_dense composed = the model's pipeline (the subject of C07_assemble / C07_incomplete_refused)",
+    "C07_model_is_source_mse_distance": "MSEDistance.distance translated (sigmoid branch, a - b, ** 2, mean) = Mse.mse_distance on two vectors of one length",
     "C07_chunks_partition": "concat of all chunks in index order = enumeration of pairs i>j (all n, all n_chunks>=1)",
     "C07_chunks_cover_once": "every pair j<i<n occurs exactly once over all chunks, nothing else occurs",
     "C07_chunks_disjoint": "two different chunk indices share no pair",
@@ -32,12 +45,29 @@ THEOREMS = {
 }
 ASSUMPTIONS = [
     "h5py dataset write/read is the identity on int64/float64 arrays (exercised by every pipeline case)",
-    "the zero-initialised backing arrays of ChunkedDistanceMatrix are abstracted away (slot at current_index is always 0 in pipeline-reachable states)",
+    "the entry-list model abstracts the zero-initialised backing arrays of ChunkedDistanceMatrix away; the C07_model_is_source_* links prove that abstraction sound for the translated methods (storage_ok: every slot from current_index on is zero, so the already-calculated tests cannot fire)",
     "metric values cross the wire as integers (the stub metric returns integer-valued floats); MSEDistance itself is compared over exact rationals with tolerance 1e-9",
     "expit is an oracle (libm on the nearest double) in the model",
 ]
-EXPLANATION = ("Model: Model/Chunks.v, Model/DistMat.v, Model/Mse.v. Modelled, not verified: numpy array storage, h5py, "
-               "tqdm; the CLI wrapper calculate_distance_matrix.main is exercised in-process on real Screen/ThetaHolder files by implementation-only predicate cases (kind cli).")
+EXPLANATION = ("Model: Model/Chunks.v, Model/DistMat.v, Model/Mse.v. Modelled, not verified: h5py (save / load are the identity in the model), "
+               "tqdm; the CLI wrapper calculate_distance_matrix.main is exercised in-process on real Screen/ThetaHolder files by implementation-only predicate cases (kind cli). "
+               "Source-translation links (C07_model_is_source_*): consume, get_number_of_lower_triangular_indices, lower_triangular_indices, "
+               "get_lower_triangular_indices_chunk, ChunkedDistanceMatrix.__init__ / _expand_storage / add_value / is_complete / to_dense / save / load / combine / concat, "
+               "calculate_pairwise_distance_matrix_on_predictions and MSEDistance.distance are re-translated WHOLE from the source on every run "
+               "(harness/py2gal.py, configurations C07_* in harness/src_functions.py, output Generated/SrcChunks.v, SrcDistMat.v, SrcMse.v) and proved equal to the model "
+               "(the matrix methods through the explicit representation map DistMat.dm_of_storage: entry k = (row_indices[k], col_indices[k], values[k]) for k < current_index, "
+               "under the storage invariant storage_ok that __init__ establishes and every method is proved to keep). "
+               "These links TRUST the translator (incl. its new constructs: assert, checked // and %, truthiness of an Optional[int], x.attr[i] = v, x.attr += e) and exactly these primitives: "
+               "an iterator over a generator = the list of its remaining items; collections.deque(islice(it, n), maxlen=0) = drop n items, list(islice(it, k)) = take k items, both ValueError for a negative count; "
+               "len; np.zeros(n, dtype=int|float) = n zeros (ValueError for n < 0); np.zeros((n, m)); np.concatenate((a, b)) = a ++ b; a[:k] (numpy prefix slice); a[i] read / a[i] = v / a[i, j] = v with one wrap of a negative index and IndexError outside; "
+               "a[:k] = v (lengths equal, or one item broadcast, else ValueError); x != 0 on an int / on a stored value; (r, c) not in zip(a, b) = no position holds the pair; ChunkedDistanceMatrix(s, chunk_size=c) / ChunkedDistanceMatrix(size=, chunk_index=, n_chunks=) = the translated __init__ on a blank object with the signature's defaults (checked); "
+               "a.combine(b), self.is_complete(), self._expand_storage(), x.add_value(...) = the translated methods; tqdm.tqdm(l) iterates l; logger.info ignored; thetas.n_thetas, thetas.get_theta(i), sample.predict_viability(data), distance_metric.distance(a, b) = arbitrary values / functions; "
+               "self.sigmoid; expit(x) = the oracle elementwise; x - y (elementwise, one item broadcast, else ValueError), x ** 2, np.mean(x) (NaN of an empty array = the model's error 6). "
+               "Hypotheses of the links, all facts about every object the pipeline builds: storage_ok (constructed objects), has_room / the size >= 2 side conditions (an object built for an EMPTY chunk has no slot and chunk_size 0: add_value on it would raise IndexError - "
+               "the pipeline never adds to it), entries_in_range (stored indices come from the enumeration, so they are not negative), equal prediction lengths for the metric. "
+               "save / load are linked with the h5py calls as primitives over the record of the file's four datasets: h5py.File(name, 'w') = a file without datasets, create_dataset(name, data=a, compression='gzip') stores a under name, "
+               "h5py.File(name, 'r') = the file's content, f[name][:] the whole array (KeyError when absent), f['size'][0] its first item, np.array([x]) = [x], cls(size, chunk_size=c) = the translated __init__; "
+               "load is linked on files written by save (the pipeline's only use); that h5py really round-trips int64 / float64 arrays is exercised by every pipeline case.")
 
 
 def _tmpdir():
@@ -107,6 +137,11 @@ def gen(rng, tier):
         rng.shuffle(vals)
         table = [[vals[i * n + j] for j in range(n)] for i in range(n)]
         yield dict(kind="pipeline", n=n, c=c, order=order, table=table)
+        # the same case against the TRANSLATED source (driver op 4): exercises the primitives the links trust
+        yield dict(kind="srcpipeline", n=n, c=c, order=order, table=table)
+    # scripts of ChunkedDistanceMatrix calls, real class vs translated methods (driver op 5)
+    for _ in range(150 if tier == "quick" else 1500):
+        yield dict(kind="script", script=_gen_script(rng))
     # the CLI wrapper, in-process, on real Screen / ThetaHolder files (implementation-only predicate)
     for _ in range(6 if tier == "quick" else 40):
         n1, n2 = rng.randint(1, 3), rng.randint(0, 3)
@@ -123,6 +158,152 @@ def gen(rng, tier):
         a = mk()
         b = rng.choice([mk(), list(a)])
         yield dict(kind="mse", sigmoid=rng.random() < 0.5, a=a, b=b)
+
+
+def _gen_script(rng):
+    """a random script over a register file of matrices; mostly valid calls, a smaller stream of invalid ones"""
+    cmds, regs = [], []      # regs: the size each live register was created with (None entries never happen: failed creations add none)
+    size0 = rng.choice([0, 1, 2, 3, 3, 4, 4, 5])
+    for _ in range(rng.randint(1, 14)):
+        r = rng.random()
+        if not regs or r < 0.2:
+            size = size0 if rng.random() < 0.8 else rng.choice([0, 1, 2, 3, 4, 5, -1])
+            nch = rng.choice([1, 1, 2, 3, 4, 7, 0, -1])
+            ci = rng.randrange(max(nch, 1)) if rng.random() < 0.85 else rng.choice([-1, nch, nch + 1])
+            cs = rng.choice([None, None, None, 0, 1, 2, 3, 6, -1])
+            cmds.append([0, size, nch, ci, [] if cs is None else [cs]])
+            # does the creation succeed?  (mirrors nothing of the code under test beyond the obvious refusals; a wrong guess
+            # only makes later register numbers refer to a missing register, which both sides then refuse alike... so be exact)
+            regs.append(size)      # placeholder, fixed up by _script_regs below
+        elif r < 0.6:
+            k = rng.randrange(len(regs))
+            size = regs[k]
+            if rng.random() < 0.8 and size >= 2:
+                i = rng.randrange(1, size)
+                j = rng.randrange(0, i)
+            else:
+                i, j = rng.randint(-2, size + 1), rng.randint(-2, size + 1)
+            cmds.append([1, k, i, j, rng.choice([0, 1, 2, 3, 5, 8, 13, -4])])
+        elif r < 0.75:
+            cmds.append([2, rng.randrange(len(regs)), rng.randrange(len(regs))])
+            regs.append(regs[cmds[-1][1]])
+        elif r < 0.85:
+            ks = [rng.randrange(len(regs)) for _ in range(rng.choice([0, 1, 2, 2, 3]))]
+            cmds.append([3, ks])
+            regs.append(regs[ks[0]] if ks else 0)
+        elif r < 0.9:
+            cmds.append([4, rng.randrange(len(regs))])
+        elif r < 0.93:
+            cmds.append([7, rng.randrange(len(regs))])
+            regs.append(regs[cmds[-1][1]])
+        elif r < 0.97:
+            cmds.append([5, rng.randrange(len(regs))])
+        else:
+            cmds.append([6, rng.randint(-1, 6), rng.randint(-1, 4), rng.randint(-1, 4)])
+    return cmds
+
+
+_ERR_TAGS = [("Indices are out of bounds", 1), ("Indices must be lower triangular", 2), ("already been calculated", 12),
+             ("must be of the same size", 3), ("Cannot concat matrices of different sizes", 3), ("Cannot concat empty list", 4),
+             ("The distance matrix is not complete", 5), ("islice", 8), ("negative dimensions", 13), ("broadcast", 14)]
+
+
+def _err_tag(e):
+    """the model's error tag of an exception of the implementation (Model/DistMat.v, Model/Chunks.v, Lib/PyRt.v)"""
+    if isinstance(e, AssertionError):
+        return 9
+    if isinstance(e, ZeroDivisionError):
+        return 10
+    if isinstance(e, IndexError):
+        return 98
+    if isinstance(e, ValueError):
+        for frag, tag in _ERR_TAGS:
+            if frag in str(e):
+                return tag
+    raise e      # an exception the translation has no tag for: surfaces as a harness error, never dropped
+
+
+def _run_script(cmds):
+    """the script on the real ChunkedDistanceMatrix; a command whose register does not exist is skipped on both sides by
+    construction: register numbers are made valid here (modulo the live count), the rewritten script is what goes on the wire"""
+    import copy
+
+    from batchie.distance_calculation import ChunkedDistanceMatrix, get_lower_triangular_indices_chunk
+
+    regs, outs, wire = [], [], []
+
+    def attempt(f):
+        try:
+            return [0, f()]
+        except Exception as e:
+            return [1, _err_tag(e)]
+
+    def fix(k):
+        return k % len(regs)
+
+    for cmd in cmds:
+        op = cmd[0]
+        if op != 0 and op != 6 and not regs and not (op == 3 and not cmd[1]):
+            continue
+        if op == 0:
+            _, size, nch, ci, cs = cmd
+            wire.append(cmd)
+            res = attempt(lambda: ChunkedDistanceMatrix(size, n_chunks=nch, chunk_index=ci, chunk_size=(cs[0] if cs else None)))
+        elif op == 1:
+            k = fix(cmd[1])
+            wire.append([1, k] + cmd[2:])
+            res = attempt(lambda: regs[k].add_value(cmd[2], cmd[3], float(cmd[4])))
+            if res[0] == 0:
+                res = [0, []]
+        elif op == 2:
+            a, b = fix(cmd[1]), fix(cmd[2])
+            wire.append([2, a, b])
+            res = attempt(lambda: regs[a].combine(regs[b]))
+        elif op == 3:
+            ks = [fix(k) for k in cmd[1]]
+            wire.append([3, ks])
+            # concat of a single matrix returns that object itself; the registers hold values, so copy it
+            res = attempt(lambda: copy.deepcopy(ChunkedDistanceMatrix.concat([regs[k] for k in ks])))
+        elif op == 7:
+            k = fix(cmd[1])
+            wire.append([7, k])
+            res = attempt(lambda: _save_load(regs[k]))
+        elif op == 4:
+            k = fix(cmd[1])
+            wire.append([4, k])
+            res = attempt(lambda: 1 if regs[k].is_complete() else 0)
+        elif op == 5:
+            k = fix(cmd[1])
+            wire.append([5, k])
+            res = attempt(lambda: [[_as_int(x) for x in row] for row in regs[k].to_dense().tolist()])
+        else:
+            wire.append(cmd)
+            res = attempt(lambda: [[int(i), int(j)] for i, j in get_lower_triangular_indices_chunk(cmd[1], cmd[2], cmd[3])])
+        if op in (0, 2, 3, 7) and res[0] == 0:
+            regs.append(res[1])
+            res = [0, []]
+        outs.append(res)
+    dump = [[int(m.size), int(m.chunk_size), int(m.current_index), [int(x) for x in m.row_indices], [int(x) for x in m.col_indices],
+             [_as_int(x) for x in m.values]] for m in regs]
+    return wire, [outs, dump]
+
+
+def _save_load(m):
+    from batchie.distance_calculation import ChunkedDistanceMatrix
+
+    d = _tmpdir()
+    try:
+        fn = os.path.join(d, "m.h5")
+        m.save(fn)
+        return ChunkedDistanceMatrix.load(fn)
+    finally:
+        shutil.rmtree(d, ignore_errors=True)
+
+
+def _as_int(x):
+    if x != int(x):
+        raise ValueError("non-integer stored value %r" % (x,))
+    return int(x)
 
 
 def run(desc):
@@ -148,7 +329,12 @@ def run(desc):
             pred = "chunk sizes differ by more than one: %r" % (sizes,)
         feats = ["chunks"] + (["n_chunks>pairs"] if c > len(expect) else []) + (["trivial"] if n < 2 else []) + (["remainder"] if len(expect) % c else [])
         return dict(wire=[0, n, c], impl=chunks, pred=pred, features=feats)
-    if k == "pipeline":
+    if k == "script":
+        wire, impl = _run_script(desc["script"])
+        errs = sorted({"err%d" % o[1] for o in impl[0] if o[0] == 1})
+        ops = sorted({"op%d" % c[0] for c in wire})
+        return dict(wire=[5, wire], impl=impl, pred=None, features=["script"] + errs + ops + (["trivial"] if len(wire) < 2 else []))
+    if k in ("pipeline", "srcpipeline"):
         n, c, order, table = desc["n"], desc["c"], desc["order"], desc["table"]
         d = _tmpdir()
         try:
@@ -186,7 +372,9 @@ def run(desc):
                 pred = "assembled matrix differs from the metric's matrix"
         feats = ["pipeline"] + (["repeat"] if len(order) != len(set(order)) else []) + (["covers"] if covers else ["missing-chunk"]) \
             + (["n_chunks>pairs"] if c > n * (n - 1) // 2 else []) + (["trivial"] if n < 2 else []) + (["zero-value"] if any(table[a][b] == 0 for a in range(n) for b in range(a)) else [])
-        return dict(wire=[1, n, c, order, table], impl=impl, pred=pred, features=feats, cmp=cmp_result())
+        if k == "srcpipeline":
+            feats = ["translated-source" if f == "pipeline" else f for f in feats]
+        return dict(wire=[1 if k == "pipeline" else 4, n, c, order, table], impl=impl, pred=pred, features=feats, cmp=cmp_result())
     if k == "cli":
         return _run_cli(desc)
     if k == "mse":
